@@ -61,10 +61,11 @@ type nodeMon struct {
 	lastH, lastV uint64
 	sampled      bool
 	// C17, future cache at worker level
-	futMax     uint64              // highest future height of any message received so far
-	futUnknown bool                // bytes arrived whose height cannot be told: nothing is expected of the cache any more
-	futExp     map[uint64][]futExp // height -> messages of correct members that the cache has to hand to the term of that height
-	storeTried map[string]bool     // (kind, h, v, hash, sender) the protocol logic handed to the Storage
+	futMax                  uint64              // highest future height of any message received so far
+	futUnknown              bool                // bytes arrived whose height cannot be told: nothing is expected of the cache any more
+	futExp                  map[uint64][]futExp // height -> messages of correct members that the cache has to hand to the term of that height
+	storeTried              map[string]bool     // (kind, h, v, hash, sender) the protocol logic handed to the Storage
+	storeHeld, storeRefused map[string]bool     // ... that the Storage accepted / turned down although it did not hold it
 }
 
 // futExp is a PREPARE or COMMIT of a correct member received while its height was still ahead of the node.
@@ -82,7 +83,7 @@ func storeKey(kind spi.Kind, h, v uint64, hash, sender string) string {
 func newNodeMon() *nodeMon {
 	return &nodeMon{proposals: map[hvh]bool{}, validNV: map[hv]map[string]bool{}, prepares: map[hvh]map[string]bool{}, commits: map[hvh]map[string]bool{},
 		votes: map[hv]map[string]*ref.Vote{}, validated: map[string]bool{}, barePP: map[hvh]bool{}, storedPP: map[hv]string{}, blockless: map[hv]bool{}, storedP: map[hvh]map[string]bool{}, heldCert: map[uint64]map[uint64]string{}, ignoredNV: map[uint64]uint64{}, electedAt: map[hv]bool{}, sentPP: map[hv]string{}, sentP: map[hv]string{}, sentC: map[hv]string{}, lastVC: map[uint64]uint64{},
-		storedVC: map[hv]map[string]*interfaces.ViewChangeMessage{}, lastCommitH: -1, lastRoundH: -1, futExp: map[uint64][]futExp{}, storeTried: map[string]bool{}}
+		storedVC: map[hv]map[string]*interfaces.ViewChangeMessage{}, lastCommitH: -1, lastRoundH: -1, futExp: map[uint64][]futExp{}, storeTried: map[string]bool{}, storeHeld: map[string]bool{}, storeRefused: map[string]bool{}}
 }
 
 type Monitors struct {
@@ -493,6 +494,22 @@ func (m *Monitors) PostDelivery(d *deliveryCtx, effects []spi.Event, panicked bo
 			}
 		}
 	}
+	// ---- a received PREPARE / COMMIT that leaves the node in its (height, view) must leave that view's election timer alone: a
+	// member that keeps sending such messages (one per made-up hash) would otherwise postpone the node's timeout for ever
+	if (msg.Env == ref.EnvP || msg.Env == ref.EnvC) && !panicked {
+		if nowH, nowV := uint64(n.St.Height()), uint64(n.St.View()); nowH == d.pre.H && nowV == d.pre.V {
+			m.Stats["C05 timers judged across a received PREPARE or COMMIT"]++
+			for i := range effects {
+				e := &effects[i]
+				if e.Node == n.Id && (e.Kind == spi.EvRegister || e.Kind == spi.EvStop) {
+					for _, p := range []string{"C05", "C12"} {
+						m.violate(p, "received-vote-re-armed-the-running-election-timer", "node %s stayed in (h=%d v=%d) while handling %s, yet the election timer of that view was touched (%s h=%d v=%d): its timeout starts over with every such message", n.Id, d.pre.H, d.pre.V, Describe(f), e.Kind, e.H, e.V)
+					}
+					break
+				}
+			}
+		}
+	}
 	// ---- C11: honest emissions are accepted by correct peers in a matching state
 	if f.Honest && m.JudgeC11 && m.w.IsCorrect(f.From) && d.pre.H == msg.H && d.inComm {
 		if d.handoff {
@@ -569,6 +586,9 @@ func (m *Monitors) judgeC11(d *deliveryCtx, effects []spi.Event) {
 			if msg.V > d.pre.V {
 				m.Stats["C18 role decisions judged for a view ahead of the receiver"]++
 			}
+			if nm0(m, n).storeRefused[storeKey(spi.EvStoreP, msg.H, msg.V, string(msg.Hash), f.From)] {
+				m.violate("C11", "honest-prepare-not-counted", "node %s (view %d): the PREPARE h=%d v=%d of correct node %s was turned down by the node's message log although the log does not hold it", n.Id, d.pre.V, msg.H, msg.V, f.From)
+			}
 			if _, ok := has(effects, n.Id, spi.EvStoreP, msg.H, msg.V, f.From); !ok {
 				m.violate("C11", "honest-prepare-not-counted", "node %s (view %d) did not count PREPARE h=%d v=%d of correct node %s", n.Id, d.pre.V, msg.H, msg.V, f.From)
 				if f.From != c.Leader(msg.V) {
@@ -582,6 +602,9 @@ func (m *Monitors) judgeC11(d *deliveryCtx, effects []spi.Event) {
 		}
 	case ref.EnvC:
 		m.Stats["C11 judged COMMIT"]++
+		if nm0(m, n).storeRefused[storeKey(spi.EvStoreC, msg.H, msg.V, string(msg.Hash), f.From)] {
+			m.violate("C11", "honest-commit-not-counted", "node %s: the COMMIT h=%d v=%d of correct node %s was turned down by the node's message log although the log does not hold it", n.Id, msg.H, msg.V, f.From)
+		}
 		if _, ok := has(effects, n.Id, spi.EvStoreC, msg.H, msg.V, f.From); !ok {
 			m.violate("C11", "honest-commit-not-counted", "node %s did not count COMMIT h=%d v=%d of correct node %s", n.Id, msg.H, msg.V, f.From)
 		}
@@ -747,6 +770,13 @@ func (m *Monitors) onCommit(n *Node, nm *nodeMon, e *spi.Event) {
 		m.violate("C13", "commit-height-not-increasing", "node %s commit callback for height %d after %d", n.Id, e.H, nm.lastCommitH)
 	}
 	nm.lastCommitH = int64(e.H) // also when the callback fails: the same height must not be passed to it again
+	// C15: "a context is never handed out for a (height, view) that has already been superseded" — in this engine steps are atomic,
+	// so a commit callback that is entered under an already cancelled context got the context of a height the node's main loop
+	// had told it to leave before the worker started handling the message that completed the quorum
+	m.Stats["C15 commit-callback contexts judged at entry"]++
+	if e.CtxErr {
+		m.violate("C15", "commit-callback-for-a-superseded-height", "node %s: the commit callback of height %d was entered with an already cancelled context: the main loop had accepted a sync above that height (contexts cancelled, sync waiting for the worker) before the worker handled the message that completed the COMMIT quorum", n.Id, e.H)
+	}
 	// C01
 	if old, ok := m.decided[e.H]; ok {
 		if old != e.Hash {
@@ -950,7 +980,13 @@ func (m *Monitors) judgeC04(n *Node, e *spi.Event) {
 func (m *Monitors) onStore(n *Node, nm *nodeMon, e *spi.Event) {
 	w := m.w
 	if e.Kind == spi.EvStoreP || e.Kind == spi.EvStoreC {
-		nm.storeTried[storeKey(e.Kind, e.H, e.V, e.Hash, e.Sender)] = true
+		k := storeKey(e.Kind, e.H, e.V, e.Hash, e.Sender)
+		nm.storeTried[k] = true
+		if e.Ok {
+			nm.storeHeld[k] = true
+		} else if !nm.storeHeld[k] {
+			nm.storeRefused[k] = true // the Storage turned down a message it does not hold
+		}
 	}
 	// what the node itself recorded (Storage SPI): basis of "holds a prepared certificate"
 	if e.Ok && (e.Kind == spi.EvStorePP || e.Kind == spi.EvStoreP) {
@@ -1335,6 +1371,8 @@ func (m *Monitors) judgeOwnNewView(n *Node, nm *nodeMon, msg *ref.Msg) {
 		}
 	} else if !m.minted[string(msg.Hash)] {
 		m.violate("C09", "new-view-proposal-of-unknown-origin", "node %s NEW_VIEW h=%d v=%d carries no proof but its proposal was not freshly requested", n.Id, msg.H, msg.V)
+		// C07, leader side: "... the block certified by the highest valid prepared proof among those votes, or a fresh block if none carries a proof"
+		m.violate("C07", "leader-proposal-neither-certified-nor-fresh", "node %s sent NEW_VIEW h=%d v=%d proposing %x: none of the votes it embeds carries a prepared proof, and the block was not obtained from RequestNewBlockProposal either", n.Id, msg.H, msg.V, short(msg.Hash))
 	}
 	if msg.Block == nil || !bytes.Equal(spi.HashOf(msg.Block), msg.Hash) {
 		m.violate("C09", "new-view-block-does-not-match-proposal", "node %s NEW_VIEW h=%d v=%d attached block does not hash to the proposed hash", n.Id, msg.H, msg.V)
